@@ -87,6 +87,39 @@ func Generate(profile string, seed uint64, tier string) (*Scenario, error) {
 				sc.Ops = append(sc.Ops, Op{K: "pageContinue"})
 			}
 		}
+	case "C12":
+		sc.Property = "C12"
+		genC12(g, sc, tier)
+	case "C12c":
+		sc.Property = "C12"
+		genC12c(g, sc, tier)
+	case "C12x":
+		sc.Property = "C12"
+		genC12(g, sc, tier)
+		// crash variant: no restarts/marks, crashes at the flush points and inside the compaction's WAL bytes
+		var ops []Op
+		for _, op := range sc.Ops {
+			if op.K != "restart" && op.K != "mark" {
+				ops = append(ops, op)
+			}
+		}
+		sc.Ops = ops
+		if g.P(0.5) {
+			sc.Knobs["allPoints"] = 1
+		} else {
+			for k := g.Range(1, 4); k > 0; k-- {
+				sc.Faults = append(sc.Faults, Fault{At: g.Pick([]string{"compact.beforeFlush", "compact.afterFlush"}), Hit: g.Range(1, 5), Kind: "crash"})
+			}
+		}
+		for i, op := range sc.Ops {
+			if op.K == "compact" {
+				sc.Cuts = append(sc.Cuts, [2]int64{int64(i), 1000})
+				for k := g.Range(1, 3); k > 0; k-- {
+					sc.Cuts = append(sc.Cuts, [2]int64{int64(i), int64(g.Range(1, 999))})
+				}
+			}
+		}
+		sc.Knobs["maxStates"] = 12
 	case "C05":
 		sc.Property = "C05"
 		genC05(g, sc, tier)
@@ -251,11 +284,11 @@ func hashStr(s string) uint64 {
 // Execute dispatches a scenario to the executor of its profile.
 func Execute(sc *Scenario) *Verdict {
 	switch sc.Profile {
-	case "C01", "C02", "C03", "C06":
+	case "C01", "C02", "C03", "C06", "C12":
 		return RunStoreScenario(sc)
-	case "C05", "C02c":
+	case "C05", "C02c", "C12c":
 		return RunConcScenario(sc)
-	case "C04", "C07":
+	case "C04", "C07", "C12x":
 		return RunCrashScenario(sc)
 	}
 	return execOther(sc)
@@ -485,4 +518,76 @@ func genC07(g *G, sc *Scenario, tier string) {
 		}
 	}
 	sc.Knobs["maxStates"] = 14
+}
+
+// genC12: histories with values flipping back and forth, references kept across property
+// changes, delete/un-delete runs and legacy duplicate versions, then compaction with a small or
+// large flush threshold, then more writes.
+func genC12(g *G, sc *Scenario, tier string) {
+	c := g.baseStoreCfg(tier)
+	c.Datasets = []string{"dsA", "dsB"}[:g.Range(1, 2)]
+	c.Pool = c.Pool[:min(len(c.Pool), 4)]
+	c.PNested, c.PTxn = 0, 0.15
+	c.PIdentic, c.PEqLen, c.PFlipDel = 0.1, 0.1, 0.2
+	c.PRefHeavy = 0.7
+	c.NOps = g.Range(4, 16)
+	sc.Datasets = c.Datasets
+	// flip-flop generator: small value alphabet makes v1, v2, v1 sequences frequent
+	ops := g.GenStoreHistory(c)
+	marks := 0
+	for _, op := range ops {
+		sc.Ops = append(sc.Ops, op)
+		if g.P(0.3) {
+			sc.Ops = append(sc.Ops, Op{K: "dup", DS: g.Pick(c.Datasets), S: g.Pick(c.Pool)})
+		}
+		if marks < 3 && g.P(0.15) {
+			sc.Ops = append(sc.Ops, Op{K: "mark"})
+			marks++
+		}
+		if g.P(0.2) {
+			sc.Ops = append(sc.Ops, Op{K: "compact", DS: g.Pick(c.Datasets), N: g.PickInt([]int{1, 1, 2, 3, 100000})})
+		}
+	}
+	sc.Ops = append(sc.Ops, Op{K: "compact", DS: c.Datasets[0], N: g.PickInt([]int{1, 2, 3, 100000})})
+	if g.P(0.5) {
+		sc.Ops = append(sc.Ops, Op{K: "restart"})
+	}
+}
+
+// genC12c: a compaction task racing one or two writers on the same dataset.
+func genC12c(g *G, sc *Scenario, tier string) {
+	c := g.baseStoreCfg(tier)
+	c.Datasets = []string{"dsA"}
+	c.Pool = c.Pool[:min(len(c.Pool), 3)]
+	c.PNested, c.PTxn, c.PRestart = 0, 0, 0
+	c.PIdentic, c.PFlipDel = 0.15, 0.2
+	c.MaxBatch = g.Range(1, 3)
+	sc.Datasets = c.Datasets
+	m := NewModel()
+	m.Create("dsA")
+	n := g.Range(3, 9)
+	for i := 0; i < n; i++ {
+		ents := g.batch(c, m, "dsA")
+		m.Batch("dsA", ents)
+		sc.Ops = append(sc.Ops, Op{K: "batch", DS: "dsA", Ents: ents})
+		if g.P(0.5) {
+			id := g.Pick(c.Pool)
+			sc.Ops = append(sc.Ops, Op{K: "dup", DS: "dsA", S: id})
+			if cur := m.DS["dsA"].LatestOf(markerToFull(id)); cur != nil {
+				m.DS["dsA"].ForceAppend(cur)
+			}
+		}
+	}
+	sc.Tasks = append(sc.Tasks, []Op{{K: "compact", DS: "dsA", N: g.PickInt([]int{1, 1, 2, 3})}})
+	nw := g.Range(1, 2)
+	for w := 0; w < nw; w++ {
+		var ops []Op
+		for i := g.Range(1, 3); i > 0; i-- {
+			ents := g.batch(c, m, "dsA")
+			ops = append(ops, Op{K: "batch", DS: "dsA", Ents: ents})
+		}
+		sc.Tasks = append(sc.Tasks, ops)
+	}
+	sc.Knobs["schedSeed"] = int64(g.r.Uint64() >> 1)
+	sc.Knobs["preemptPct"] = int64(g.PickInt([]int{20, 35, 50, 70}))
 }
